@@ -328,6 +328,78 @@ example : render (plain (mkHTMLFormatter { entity_substitution := .custom 0 })) 
 example : [StrKind.comment, .cdata, .doctype, .declaration, .pi, .xmlpi, .preformatted].all (·.verbatim) = true
     ∧ StrKind.text.verbatim = false := by decide
 
+/-- The same for pretty-printing (`prettify`, `decode(indent_level=…)`): the item list — pieces, their stripping, the
+    indentation positions — under `f` is the item list of the non-substituting formatter on the mapped tree. -/
+theorem custom_subst_scope_pretty (c : Cfg) (i : Subst → PStr → PStr) (h : c.entity_substitution ≠ .none) (lv : Nat)
+    (par : Option PStr) (n : Node) :
+    pretty c i lv par n
+      = pretty (plain c) i lv par
+          (mapScope c.cdata_containing_tags c.empty_attributes_are_booleans (i c.entity_substitution) par n) := by
+  unfold pretty
+  rw [prettyItems_mapScope c i h lv false par n]; rfl
+
+example : pretty (mkHTMLFormatter { entity_substitution := .custom 0 }) bracket 0 none sample
+    = ofS "<p a=\"[]\" b=\"[&]\">\n <br/>\n [x&y]\n <script>\n  1&2\n </script>\n <!--&-->\n</p>\n" := by decide +kernel
+
+/-! ## however the formatter is supplied -/
+
+/-- A `Formatter` object is used as it is by every output method. -/
+theorem supplied_object (regH regX : List (Option PStr × Cfg)) (isXml : Bool) (c : Cfg) (i : Subst → PStr → PStr) (m : Mode)
+    (par : Option PStr) (n : Node) : entry regH regX isXml (.obj c) i m par n = renderMode c i m par n := rfl
+
+/-- A bare function: every output method renders as with the tree flavour's class constructed on that function alone, so
+    every other option has its default (`/`, the flavour's cdata-containing tags, no boolean attributes, one space). -/
+theorem supplied_function (isXml : Bool) (s : Subst) (i : Subst → PStr → PStr) (m : Mode) (par : Option PStr) (n : Node) :
+    entry BS.Gen.fmtHtmlRegistry BS.Gen.fmtXmlRegistry isXml (.fn s) i m par n
+      = renderMode (if isXml then mkXMLFormatter { entity_substitution := s } else mkHTMLFormatter { entity_substitution := s })
+          i m par n := rfl
+
+theorem lookup_html (nm : Option PStr) (c : Cfg) (h : lookup BS.Gen.fmtHtmlRegistry nm = .ok c) (i : Subst → PStr → PStr) (m : Mode)
+    (par : Option PStr) (n : Node) :
+    entry BS.Gen.fmtHtmlRegistry BS.Gen.fmtXmlRegistry false (.name nm) i m par n = renderMode c i m par n := by
+  simp [entry, formatterForName, h]
+
+theorem lookup_xml (nm : Option PStr) (c : Cfg) (h : lookup BS.Gen.fmtXmlRegistry nm = .ok c) (i : Subst → PStr → PStr) (m : Mode)
+    (par : Option PStr) (n : Node) :
+    entry BS.Gen.fmtHtmlRegistry BS.Gen.fmtXmlRegistry true (.name nm) i m par n = renderMode c i m par n := by
+  simp [entry, formatterForName, h]
+
+/-- A registered name: every output method, on every tree, renders as with the documented formatter of the tree's flavour
+    (live registries); any other name raises `KeyError` from every output method. -/
+theorem supplied_name (i : Subst → PStr → PStr) (m : Mode) (par : Option PStr) (n : Node) :
+    entry BS.Gen.fmtHtmlRegistry BS.Gen.fmtXmlRegistry false (.name (some N_html)) i m par n
+      = renderMode (mkHTMLFormatter { entity_substitution := .html }) i m par n ∧
+    entry BS.Gen.fmtHtmlRegistry BS.Gen.fmtXmlRegistry false (.name (some N_html5)) i m par n
+      = renderMode (mkHTMLFormatter { entity_substitution := .html5, void_element_close_prefix := some [],
+                                      empty_attributes_are_booleans := true }) i m par n ∧
+    entry BS.Gen.fmtHtmlRegistry BS.Gen.fmtXmlRegistry false (.name (some N_html5_412)) i m par n
+      = renderMode (mkHTMLFormatter { entity_substitution := .html, void_element_close_prefix := some [],
+                                      empty_attributes_are_booleans := true }) i m par n ∧
+    entry BS.Gen.fmtHtmlRegistry BS.Gen.fmtXmlRegistry false (.name (some N_minimal)) i m par n
+      = renderMode (mkHTMLFormatter { entity_substitution := .xml }) i m par n ∧
+    entry BS.Gen.fmtHtmlRegistry BS.Gen.fmtXmlRegistry false (.name none) i m par n = renderMode (mkHTMLFormatter {}) i m par n ∧
+    entry BS.Gen.fmtHtmlRegistry BS.Gen.fmtXmlRegistry true (.name (some N_html)) i m par n
+      = renderMode (mkXMLFormatter { entity_substitution := .html }) i m par n ∧
+    entry BS.Gen.fmtHtmlRegistry BS.Gen.fmtXmlRegistry true (.name (some N_minimal)) i m par n
+      = renderMode (mkXMLFormatter { entity_substitution := .xml }) i m par n ∧
+    entry BS.Gen.fmtHtmlRegistry BS.Gen.fmtXmlRegistry true (.name none) i m par n = renderMode (mkXMLFormatter {}) i m par n ∧
+    (∀ isXml nm, nm ∉ (if isXml then [none, some N_html, some N_minimal]
+                        else [none, some N_html, some N_html5, some N_html5_412, some N_minimal]) →
+      entry BS.Gen.fmtHtmlRegistry BS.Gen.fmtXmlRegistry isXml (.name nm) i m par n = .keyError) := by
+  refine ⟨lookup_html _ _ (by decide) .., lookup_html _ _ (by decide) .., lookup_html _ _ (by decide) ..,
+    lookup_html _ _ (by decide) .., lookup_html _ _ (by decide) .., lookup_xml _ _ (by decide) ..,
+    lookup_xml _ _ (by decide) .., lookup_xml _ _ (by decide) .., ?_⟩
+  intro isXml nm hn
+  have := ((formatter_for_name_spec isXml).2.2.1 nm).2 hn
+  simp [entry, this]
+
+example : entry BS.Gen.fmtHtmlRegistry BS.Gen.fmtXmlRegistry false (.name (some N_html5)) builtin .decode none sample
+    = .ok (ofS "<p a b=\"&\"><br>x&y<script>1&2</script><!--&--></p>") := by decide +kernel
+example : entry BS.Gen.fmtHtmlRegistry BS.Gen.fmtXmlRegistry true (.name (some N_html5)) builtin .decode none sample = .keyError := by
+  decide +kernel
+example : entry BS.Gen.fmtHtmlRegistry BS.Gen.fmtXmlRegistry true (.fn .xml) builtin (.pretty 0) none sample
+    = .ok (ofS "<p a=\"\" b=\"&amp;\">\n <br/>\n x&amp;y\n <script>\n  1&amp;2\n </script>\n <!--&-->\n</p>\n") := by decide +kernel
+
 /-! ## determinism -/
 
 /-- Attributes come out in key order whatever the insertion order (keys of a dict are distinct): same output, plain and
